@@ -29,6 +29,7 @@ PYVC_MODULES = [
     "contracts.fuseinfo",
     "contracts.diagonal",
     "contracts.linalg_fermi",
+    "contracts.fermi_contract",
 ]
 
 BASE = [A_BUILTINS, A_INT, A_TERM, A_NUMPY, A_BOUNDED, A_USER]
